@@ -80,18 +80,20 @@ def run(rep, props, replay=None):
                              f"(standardize_nc opsQ {C.qlist(sds)} {qX}) {C.qmat(stn)}")
                 todo.append((t, "standardize(center=False)", kind, X))
         # rescale: default, use_argvals_stand, user weight
-        for mode in ("default", "stand", "user"):
+        for mode in ("default", "stand", "user", "user-tiny"):
             if mode == "default":
                 new, w = d.rescale(); grid_used = x; s2 = w
             elif mode == "stand":
                 new, w = d.rescale(use_argvals_stand=True); grid_used = np.asarray(d.argvals_stand["input_dim_0"]); s2 = w
+            elif mode == "user-tiny":
+                uw = 2.0 ** -30; new, w = d.rescale(weights=uw); grid_used = x; s2 = uw    # a weight > 0 is a weight, however small
             else:
                 uw = float(rng.choice([0.25, 4.0, 2.0])); new, w = d.rescale(weights=uw); grid_used = x; s2 = uw
             newv = np.asarray(new.values)
             s = float(np.sqrt(float(s2)))
             if s <= 0 or not np.isfinite(s):
                 continue
-            if mode != "user":
+            if not mode.startswith("user"):
                 t = runq.add(f"qclose {C.qlit(1e-9 * sc * sc * max(1.0, np.ptp(grid_used)))} "
                              f"(rescale_weight opsQ {C.qlist(grid_used)} {qX}) {C.qlit(w)}")
                 todo.append((t, f"rescale-weight/{mode}", kind, X))
@@ -102,7 +104,7 @@ def run(rep, props, replay=None):
                 _, w2 = fd.dense(x, newv).rescale()
                 if abs(w2 - 1.0) > 1e-8:
                     mon.append(f"re-estimated weight after rescaling is {w2!r}, not one")
-            if mode == "user" and abs(w - uw) > 0:
+            if mode.startswith("user") and abs(w - uw) > 0:
                 mon.append("user-supplied weight is not returned unchanged")
         # scale sweep: "any offset/scale" — the promised effects must not depend on the magnitude of the data
         for scl in (1e-9, 1e-4, 1e5):
